@@ -6,6 +6,7 @@ import (
 
 	lib "github.com/corazawaf/libinjection-go"
 
+	"verif/alpha"
 	"verif/fw"
 )
 
@@ -109,6 +110,44 @@ func evalC14Seq(w *fw.W, s, _ string) {
 	w.Traces(2)
 	w.NonTrivial()
 	w.OutcomeStr(string(want))
+}
+
+// c14ListSeps: separators of long lists, calibrated once on the repaired pinned tree (VERIF_CALIB=C14 prints the
+// separators for which some length 1..300 is reported; those are not in this list).
+var c14ListSeps = []string{", ", " ", ". ", " - ", ": ", "; "}
+
+func c14Lists() [][2]string {
+	var out [][2]string
+	ks := []int{}
+	for k := 1; k <= 300; k++ {
+		ks = append(ks, k)
+	}
+	for _, n := range alpha.NewInts() {
+		if n > 300 && n <= 20000 {
+			ks = append(ks, n-1, n, n+1)
+		}
+	}
+	for _, sep := range c14ListSeps {
+		for kind := 0; kind < 3; kind++ {
+			for _, k := range ks {
+				var sb strings.Builder
+				for i := 0; i < k; i++ {
+					if i > 0 {
+						sb.WriteString(sep)
+					}
+					switch {
+					case kind == 0, kind == 2 && i%2 == 0:
+						sb.WriteString(c14Words[i%len(c14Words)])
+					default:
+						sb.WriteString(c14Numbers[i%len(c14Numbers)])
+					}
+				}
+				shape := fmt.Sprintf("list kind=%d sep=%q k=%d", kind, sep, k)
+				out = append(out, [2]string{sb.String(), shape}, [2]string{sb.String() + ".", shape + " + full stop"})
+			}
+		}
+	}
+	return out
 }
 
 func evalC14Shape(w *fw.W, s, shape string) {
@@ -257,6 +296,14 @@ func init() {
 					w.Trie(al, 1, w.Pick(7, 8))
 				},
 				Eval: func(w *fw.W, s, a string) { evalC14Seq(w, strings.TrimSuffix(s, " "), a) }},
+			{Name: "long-lists", Space: "lists of k items for EVERY k in 1..300 (+ the neighbourhood of new integer constants): items = words / numbers / alternating, separators in the calibrated set, with and without a final full stop", Share: 1,
+				Run: func(w *fw.W) {
+					var items [][2]string
+					for _, l := range c14Lists() {
+						items = append(items, l)
+					}
+					w.Each(len(items), func(i int) { w.Item(items[i][0], items[i][1]) })
+				}, Eval: evalC14Shape},
 			{Name: "benign-shapes", Space: "every filling of each listed shape over 12 words x 6 numbers", Share: 2,
 				Run: func(w *fw.W) {
 					w.Each(len(c14Shapes), func(i int) {
